@@ -206,6 +206,7 @@ REAL_FUNCS = {
     "lt", "le", "gt", "ge", "eq", "ne", "and", "or", "not", "int", "arctan2", "size", "shape", "ndim", "range",
     "isscalar", "is", "isnot", "pos", "nonneg", "zero", "nonzero", "in", "notin", "any", "all", "amin", "amax", "argsort", "arange_real", "sign",
 }
+ALWAYS_REAL_ATTRS = {"attr:shape", "attr:ndim", "attr:size", "attr:dtype", "attr:ishape", "attr:oshape"}   # real whatever they are taken of
 COMMUTATIVE_FUNCS = {"max", "min", "and", "or", "eq", "ne"}
 
 
@@ -361,6 +362,11 @@ def absq(z):
 def abs_(z):
     if is_real(z):
         # |x| for a real term stays an application (sign unknown); abs(x)^2 -> x^2 in reduce_rules
+        # |-x| = |x|: one spelling per pair (the first monomial in key order gets a positive coefficient)
+        if z.t:
+            m0 = min(z.t, key=repr)
+            if z.t[m0][0] < 0:
+                z = neg(z)
         return app("abs", z, real=True)
     return power(absq(z), Fr(1, 2))
 
@@ -505,7 +511,7 @@ def _subst_atom(a, mapping):
         args = [_subst_enc(x, mapping) for x in a[2]]
         if a[1] == "conj":
             return conj(args[0])
-        return app(a[1], *args, real=True if (a[3] and a[1] in REAL_FUNCS) else None)
+        return app(a[1], *args, real=True if (a[3] and (a[1] in REAL_FUNCS or a[1] in ALWAYS_REAL_ATTRS)) else None)
     if a[0] == "cmp":
         inner = subst(from_key(a[1]), mapping)
         # re-normalise: a compound that became a monomial must merge
